@@ -35,6 +35,7 @@ import (
 	abci "github.com/cometbft/cometbft/abci/types"
 	tenderminttypes "github.com/cometbft/cometbft/proto/tendermint/types"
 	cryptocodec "github.com/cosmos/cosmos-sdk/crypto/codec"
+	cryptotypes "github.com/cosmos/cosmos-sdk/crypto/types"
 	sdk "github.com/cosmos/cosmos-sdk/types"
 	sdkerrors "github.com/cosmos/cosmos-sdk/types/errors"
 	authtypes "github.com/cosmos/cosmos-sdk/x/auth/types"
@@ -125,6 +126,13 @@ type H struct {
 	halted  bool
 	urls    []string
 	scratch []byte
+	// signed transactions (c15tx_test.go): keys of the tracked accounts, what the transactions of the current block paid
+	// into gov per account, proposals cancelled by a transaction of the current block
+	keys        []cryptotypes.PrivKey
+	txPaid      map[int]int64
+	txCancelled map[uint64]bool
+	txDeps      []txDep
+	lastTxRes   []*abci.ExecTxResult
 }
 
 func cellKey(k int) []byte { return []byte{0xFE, 0xC1, 0x50 + byte(k)} }
@@ -140,7 +148,11 @@ func (h *H) rel(t *time.Time) string {
 
 // commitAt finalizes the current block (whose context the ops have been writing to) at its block time and opens the
 // next one at `next`; same steps as helpers.BaseSuite.Commit, with chosen times.
-func (h *H) commitAt(next time.Time) error {
+func (h *H) commitAt(next time.Time) error { return h.commitAtTxs(next, nil) }
+
+// commitAtTxs: the same with signed transactions delivered by this block's FinalizeBlock (after the ops already written to
+// the block's context, before its end-blocker)
+func (h *H) commitAtTxs(next time.Time, txs [][]byte) error {
 	s := h.s
 	ctx := s.Ctx
 	commitInfo := abci.CommitInfo{Round: 1}
@@ -159,11 +171,13 @@ func (h *H) commitAt(next time.Time) error {
 		}
 	}
 	height := ctx.BlockHeight()
-	if _, err := s.App.FinalizeBlock(&abci.RequestFinalizeBlock{
-		Height: height, Time: ctx.BlockTime(), ProposerAddress: ctx.BlockHeader().ProposerAddress, DecidedLastCommit: commitInfo,
-	}); err != nil {
+	fres, err := s.App.FinalizeBlock(&abci.RequestFinalizeBlock{
+		Height: height, Time: ctx.BlockTime(), ProposerAddress: ctx.BlockHeader().ProposerAddress, DecidedLastCommit: commitInfo, Txs: txs,
+	})
+	if err != nil {
 		return err
 	}
+	h.lastTxRes = fres.TxResults
 	if _, err := s.App.Commit(); err != nil {
 		return err
 	}
@@ -206,6 +220,8 @@ func kind(err error) string {
 		return "panic"
 	case errors.Is(err, govtypes.ErrInvalidProposalType):
 		return "err:type"
+	case errors.Is(err, govtypes.ErrInvalidDepositDenom):
+		return "err:denom"
 	case errors.Is(err, govtypes.ErrMinDepositTooSmall):
 		return "err:small"
 	case errors.Is(err, govtypes.ErrInvalidSigner), errors.Is(err, govtypes.ErrInvalidProposalMsg), errors.Is(err, govtypes.ErrUnroutableProposalMsg):
@@ -632,12 +648,13 @@ func (h *H) monitor(op string, before, after snap, paidWho int, paid int64, spec
 			}
 		}
 		for pid, bp := range before.props {
-			if _, still := after.props[pid]; !still && !(bp.status == "deposit" && !bp.dEnd.After(before.now)) {
+			if _, still := after.props[pid]; !still && !(bp.status == "deposit" && !bp.dEnd.After(before.now)) && !h.txCancelled[pid] {
 				out.Violate(fmt.Sprintf("proposal %d (%s) was deleted by the end-blocker although its deposit period had not ended", pid, bp.status))
 			}
 		}
 	}
 	// (2) each deposit that disappears left the module exactly once, towards its depositor or out of supply
+	paid0 := paid
 	settled := sdkmath.ZeroInt()
 	perWho := map[int]sdkmath.Int{}
 	for key, amt := range before.deps {
@@ -648,6 +665,19 @@ func (h *H) monitor(op string, before, after snap, paidWho int, paid int64, spec
 				perWho[w] = sdkmath.ZeroInt()
 			}
 			perWho[w] = perWho[w].Add(amt)
+		}
+	}
+	for _, n := range h.txPaid {
+		paid += n
+	}
+	// coins a transaction of this block paid in for a proposal that the same block closed were settled in it as well
+	for _, d := range h.txDeps {
+		if p, ok := after.props[d.pid]; !ok || !open(p.status) {
+			settled = settled.AddRaw(d.amt)
+			if _, ok := perWho[d.who]; !ok {
+				perWho[d.who] = sdkmath.ZeroInt()
+			}
+			perWho[d.who] = perWho[d.who].AddRaw(d.amt)
 		}
 	}
 	gb, ga := before.govAll.AmountOf(denom), after.govAll.AmountOf(denom)
@@ -668,7 +698,7 @@ func (h *H) monitor(op string, before, after snap, paidWho int, paid int64, spec
 		}
 	}
 	cancelTo := -1
-	if strings.HasPrefix(op, "cancel ") {
+	if strings.HasPrefix(op, "cancel ") || len(h.txCancelled) > 0 {
 		if a, err := sdk.AccAddressFromBech32(before.params.ProposalCancelDest); err == nil {
 			if i, ok := h.idx[a.String()]; ok {
 				cancelTo = i
@@ -678,8 +708,9 @@ func (h *H) monitor(op string, before, after snap, paidWho int, paid int64, spec
 	for i := range h.accs {
 		delta := after.bal[i].Sub(before.bal[i]).Sub(credits[i])
 		if i == paidWho {
-			delta = delta.AddRaw(paid)
+			delta = delta.AddRaw(paid0)
 		}
+		delta = delta.AddRaw(h.txPaid[i])
 		max, ok := perWho[i]
 		if !ok {
 			max = sdkmath.ZeroInt()
@@ -1283,7 +1314,13 @@ func newH(t *testing.T, out *hx.Out, rng *rand.Rand, nVal, nAcc int) *H {
 		h.voter[sdk.AccAddress(v).String()] = 100 + i
 	}
 	for i := 0; i < nAcc; i++ {
-		a := helpers.GenAccAddress()
+		// every second account has an ethereum-style key (both kinds sign cosmos transactions on fx-core)
+		var k cryptotypes.PrivKey = helpers.NewPriKey()
+		if i%2 == 1 {
+			k = helpers.NewEthPrivKey()
+		}
+		h.keys = append(h.keys, k)
+		a := sdk.AccAddress(k.PubKey().Address())
 		h.accs = append(h.accs, a)
 		h.idx[a.String()] = i
 		h.voter[a.String()] = i
@@ -1344,6 +1381,9 @@ func (h *H) start(facts map[string]json.RawMessage) {
 		c := sn.custom[u]
 		h.out.Emit(fmt.Sprintf("gcustom %s %s %d %s", u, scaled(c.DepositRatio), int64(*c.VotingPeriod/time.Second), scaled(c.Quorum)), "ok")
 	}
+	// the genesis staking state (bonded validators, their delegations): from here on the model computes the numbers the
+	// tallies read (delegations, slashes) and every `endblock` line is checked against the real staking keeper
+	h.out.Emit(fmt.Sprintf("gstaking %s %s", h.s.App.StakingKeeper.PowerReduction(h.ctx()), strings.Join(h.stakingWords(), " ")), "ok")
 }
 
 func defaultParams() mparams {
@@ -1611,11 +1651,14 @@ func (h *H) slash(val int, factor sdkmath.LegacyDec) {
 	if err != nil {
 		return
 	}
+	var serr error
 	if res := hx.Try(func() error {
-		_, err := sk.Slash(ctx, cons, ctx.BlockHeight(), v.GetConsensusPower(sk.PowerReduction(ctx)), factor)
-		return err
-	}); res == "ok" {
+		_, serr = sk.Slash(ctx, cons, ctx.BlockHeight(), v.GetConsensusPower(sk.PowerReduction(ctx)), factor)
+		return nil
+	}); res == "ok" && serr == nil {
 		h.out.Count("env:slash")
+		// an op of the staking model: tokens burnt = trunc(power·reduction · factor), shares untouched
+		h.out.Emit(fmt.Sprintf("slash %d %s", 100+val, factor.BigInt()), "ok "+h.observe().line)
 	}
 }
 
@@ -1787,7 +1830,11 @@ func (h *H) randomSequence(nOps int) {
 					amt = 1
 				}
 			}
-			h.opDeposit(pid, r.Intn(len(h.accs)), amt)
+			if r.Intn(12) == 0 { // the same deposit with a non-deposit denomination in its coins
+				h.opDepositX(pid, r.Intn(len(h.accs)), amt, hx.Pick(r, []int64{1, 1000}))
+			} else {
+				h.opDeposit(pid, r.Intn(len(h.accs)), amt)
+			}
 		case x < 62:
 			ids := h.openIDs(sn, "voting")
 			pid := uint64(1 + r.Intn(4))
@@ -1825,7 +1872,11 @@ func (h *H) randomSequence(nOps int) {
 					dt = best + hx.Pick(r, []int64{-1, 0, 0, 1})
 				}
 			}
-			h.opEndBlock(dt)
+			if r.Intn(5) == 0 {
+				h.randomTxBlock(sn, dt)
+			} else {
+				h.opEndBlock(dt)
+			}
 		case x < 92:
 			remove, ratio, period, q := h.randomCustom()
 			h.opCustom(hx.Pick(r, h.urls), remove, ratio, period, q)
@@ -1925,6 +1976,21 @@ func TestC15(t *testing.T) {
 		h := newH(t, out, rng, 4, 4)
 		h.start(facts)
 		h.scenarioTally(sl)
+	}
+	{
+		h := newH(t, out, rng, 3, 4)
+		h.start(facts)
+		h.scenarioTx()
+	}
+	for i, c := range [][2]int64{{0, 1}, {1, 1}, {1, 3}} {
+		h := newH(t, out, rng, 3, 4)
+		h.start(facts)
+		h.scenarioCancel(c, []int{0, 1, 5}[i])
+	}
+	{
+		h := newH(t, out, rng, 3, 4)
+		h.start(facts)
+		h.scenarioMidFlight()
 	}
 	nSeq := hx.N(240, 1500)
 	for i := 0; i < nSeq; i++ {
